@@ -435,13 +435,14 @@ def exec_pressure_family():
             L = ['predicate A() : Interval { duration >= 6.0; }', 'predicate G() : Interval { duration >= 2.0; }', 'predicate H() : Interval { duration >= 2.0; }',
                  'goal a = new A();', '{ goal g = new G(); g.start >= %s; } [1.0] or { goal h = new H(); h.start >= %s; a.start >= %s; } [3.0]' % (f(gs), f(gs), f(late))]
             out.append(('fe_frozen_%d_%d' % (gs, late), ['\n'.join(L) + '\n'], True))
-    # the same with the END of an atom that is over: A is short and ends early (the client may have delayed its end once); when G
-    # fails later, the only alternative needs A to end much later - the executor must refuse or keep the end where it was
+    # the same with the END of an atom that is over: with the cheap job G, A is short and ends early (the client may have delayed
+    # its end once); when G fails later, the only alternative needs A to end much later - the executor must refuse or keep the
+    # end where it was
     for gs in (7, 9):
-        for late in (12, 15):
+        for ub in (3, 5):
             L = ['predicate A() : Interval { duration >= 2.0; }', 'predicate G() : Interval { duration >= 2.0; }', 'predicate H() : Interval { duration >= 2.0; }',
-                 'goal a = new A();', '{ goal g = new G(); g.start >= %s; } [1.0] or { goal h = new H(); h.start >= %s; a.end >= %s; } [3.0]' % (f(gs), f(gs), f(late))]
-            out.append(('fe_endfrozen_%d_%d' % (gs, late), ['\n'.join(L) + '\n'], True))
+                 'goal a = new A();', 'a.start <= 1.0;', '{ goal g = new G(); g.start >= %s; a.end <= %s; } [1.0] or { goal h = new H(); h.start >= %s; a.end >= 12.0; } [3.0]' % (f(gs), f(ub), f(gs))]
+            out.append(('fe_endfrozen_%d_%d' % (gs, ub), ['\n'.join(L) + '\n'], True))
     return out
 
 
